@@ -98,7 +98,7 @@ fn c13_dis_piece(n: usize) {
     } else {
         assert!(by.len() == 2 && by[0] == file_c && by[1] == rank_c, "rivals on the same file and on the same rank: full square");
     }
-    kani::cover!(n == 0 || (!same_file && !same_rank), "rivals differing in file and rank");
+    crate::vcover!(n == 0 || (!same_file && !same_rank), "rivals differing in file and rank");
     core::mem::forget(s);
 }
 
